@@ -111,6 +111,16 @@ CHECKS = {
   note='Trusted: lark keeps every token with keep_all_tokens and reports exact positions; the re-tokeniser alphabet '
        'is read from ignored.py.',
   ref='DESIGN.md §2 C03'),
+ 'C20': dict(
+  technique='table agreement between accessors and the documented special ITERATION codes (reference table in '
+            'specs/), encoder/decoder tag and payload-key agreement, regex-AST label/group pairing of the table '
+            'header, reaching-definitions check of positional column slices, last-match selection lint',
+  text='Z1-Z6 decide the structural part of "numbers are taken from the rows/tables NONMEM designates for them" and '
+       'of the JSON round trip: each accessor/row pairing, each header field/label pairing, each tag/payload pairing is '
+       'a finite table extracted from the source and compared as a whole. Fixed-width parsing and numeric matrix '
+       'relations are not decided.',
+  note='Trusted: specs/ext_codes.json (NONMEM 7 guide, cross-checked with the example ext file shipped in the repo).',
+  ref='DESIGN.md §2 C20'),
 }
 NA = {}
 
